@@ -153,6 +153,13 @@ HistFail(gr, j, k) ==
   { <<Build(Roots(gr), j, 1), c, BuildF(Roots(gr), j, k, FailRec(S, 2, touch)), Build(Roots(gr), j, 1)>> :
       S \in FailSets(gr), touch \in BOOLEAN, c \in {x \in Changes(gr) : x.op \in {"edit", "del"}} }
 
+\* a command that reads headers is re-run after a header changed and fails after it has already truncated its depfile
+\* (the outputs and the build log are as they were): the dependencies it had are no longer on record
+FailEdep(S) == SetToSeq({[s |-> i, code |-> 1, touch |-> FALSE, edep |-> TRUE] : i \in S})
+HistFailDep(gr, j) ==
+  UNION { { <<Build(Roots(gr), j, 1), [op |-> o, f |-> gr.stmts[i].hdrs[1]], BuildF(Roots(gr), j, 1, FailEdep({i})), Build(Roots(gr), j, 1), Build(Roots(gr), j, 1)>> :
+              o \in {"edit", "touch"} } : i \in {x \in Cmds(gr) : gr.stmts[x].deps \in {"depfile", "gcc"} /\ gr.stmts[x].hdrs # <<>>} }
+
 (***************************************************************************)
 (* Families.  (Operators with a parameter: TLC evaluates every              *)
 (* parameterless constant definition at start-up.)  K bounds the number of  *)
@@ -231,11 +238,14 @@ FamSched(K, CH) ==
   UNION { UNION { {Scn(gr, <<Build(Roots(gr), j, 1)>>) : j \in {1, 2, 3}} : gr \in GraphsS(sh, {"plain", "restat", "gcc", "two"}, K) } :
           sh \in ShapeNames }
 
+FamFailDep(K, CH) ==
+  UNION { UNION { {[srcs |-> gr.srcs, pools |-> gr.pools, stmts |-> gr.stmts, hist |-> h, twin |-> "deps"] : h \in HistFailDep(gr, 2)} : gr \in GraphsS(sh, {"plain", "depfile", "gcc", "restat"}, K) } : sh \in {"chain2", "fanin", "fanout", "mixed"} }
 \* failure family (C05)
 FamFail(K, CH) ==
   UNION { UNION { UNION { {Scn(gr, h) : h \in Pick(CH, HistFail(gr, jk[1], jk[2]))} : jk \in {1, 2} \X {1, 2, 0} } :
                   gr \in GraphsS(sh, {"plain", "restat", "gcc"}, K) } :
           sh \in {"chain2", "chain3", "fanin", "fanout", "indep", "mixed", "diamond", "alias", "valid", "oonly", "aliasoo", "aliasoo2", "midoo"} }
+  \cup FamFailDep(K, CH)
   \cup
   \* more failures in flight than the budget, with independent work still queued
   UNION { UNION { {Scn(gr, <<BuildF(Roots(gr), jk[1], jk[2], FailRec(S, 1, FALSE))>>) : jk \in {<<2, 1>>, <<3, 1>>, <<3, 2>>, <<4, 2>>}, S \in {X \in SUBSET Cmds(gr) : Cardinality(X) \in {2, 3}}} :
@@ -418,6 +428,12 @@ DynGraphs == {
            St1(2, <<"o2">>, <<"s2">>, <<>>),
            [St1(3, <<"o3">>, <<"s1">>, <<"dd", "o2">>) EXCEPT !.dd = "dd", !.ddi = <<"o2">>] >>),
   Graph(<< [St1(1, <<"o1">>, <<"s1">>, <<"dd", "s2">>) EXCEPT !.dd = "dd", !.ddi = <<"s2">>] >>),
+  \* the producer of the dyndep file waits (order-only) for the statement whose output the file then names as a discovered
+  \* input: when that statement finishes, the dyndep file's clean producer is passed and the file is loaded from inside the
+  \* walk over the users of that very output
+  Graph(<< St1(1, <<"o1">>, <<"s1">>, <<>>),
+           [St1(2, <<"dd">>, <<"s2">>, <<"o1">>) EXCEPT !.mkdd = "dd"],
+           [St1(3, <<"o3">>, <<"s2">>, <<"dd">>) EXCEPT !.dd = "dd", !.ddi = <<"o1">>] >>),
   \* the producer of the discovered input is first reached through the dyndep file and has a validation of its own
   \* (a statement that is ready at once / that has to wait for an input of its own)
   Graph(<< [St1(1, <<"dd">>, <<"s1">>, <<>>) EXCEPT !.mkdd = "dd"],
@@ -655,6 +671,7 @@ Family(name) ==
     [] name = "partial" -> FamPartial(ParK, ParCH)
     [] name = "sched" -> FamSched(ParK, ParCH)
     [] name = "fail" -> FamFail(ParK, ParCH)
+    [] name = "faildep" -> FamFailDep(ParK, ParCH)
     [] name = "rand" -> FamRand(ParK, ParCH)
     [] name = "mc" -> FamMC(ParK, ParCH)
     [] name = "mcpools" -> FamMCPools(ParK, ParCH)
